@@ -87,7 +87,9 @@ def scenario_line(sc):
         "%d:%s:%s:%d:%d:%d:%d" % (i, "h" if h else "n", hx(o), d, p, dl, pr) for (i, h, o, d, p, dl, pr) in sc["jobs"])
 
 def parse_trace(ans):
-    """-> dict(labels=[str], counts={}, started={}, finished={}, procs={j:(cb,status)}, err=str) or None"""
+    """-> dict(events=[token], counts, started, finished, procs={j:(cb,status)}, copies, err) or None.
+    events are what the queue's API shows (see harness/cpp/queue_driver.cpp): P/Q around addJob, B queueJobStarted,
+    S/E body begin/end, f queueJobFinished, s process started, c, d, x."""
     if not ans.startswith("TRACE "):
         return None
     parts = ans.split(" | ")
@@ -95,99 +97,124 @@ def parse_trace(ans):
         body = s.split(" ", 1)[1] if " " in s else "."
         return {} if body == "." else {int(x.split("=")[0]): x.split("=")[1] for x in body.split(",")}
     labs = parts[0][6:]
-    labels = [] if not labs else [x.split("=", 1)[1] for x in labs.split(",")]
+    events = [] if not labs else [x.split("=", 1)[1] for x in labs.split(",")]
     procs = {j: (int(v.split("/")[0]), v.split("/")[1]) for j, v in tab(parts[4]).items()}
-    return dict(labels=labels, counts={k: int(v) for k, v in tab(parts[1]).items()},
+    rest = {p.split("=", 1)[0]: p.split("=", 1)[1] for p in parts[5:] if "=" in p}
+    return dict(events=events, counts={k: int(v) for k, v in tab(parts[1]).items()},
                 started={k: int(v) for k, v in tab(parts[2]).items()}, finished={k: int(v) for k, v in tab(parts[3]).items()},
-                procs=procs, err=parts[5][4:] if len(parts) > 5 else "?")
+                procs=procs, copies=int(rest.get("copies", "0")), err=rest.get("err", "?"))
+
+def model_events(tr):
+    """the events the transition system talks about (body begin/end are the harness's own in-flight measure)"""
+    return [e for e in tr["events"] if e[0] in "PQBfscdx"]
 
 def queue_oracle(sc, tr):
-    """Property oracle computed from the observed trace and counters only (no model). -> (key, text) or None"""
-    n, lanes = len(sc["jobs"]), sc["lanes"]
+    """Property oracle computed from API-observable events and counters only (no model, no guess about the instants
+    at which the queue enqueued / dequeued). -> (key, text) or None"""
+    n, lanes, serial = len(sc["jobs"]), sc["lanes"], sc["alg"] == "serial"
     for j in range(n):
         c = tr["counts"].get(j, 0)
-        if c == 0 and sc["alg"] == "serial":
+        if c == 0 and serial:
             return ("serial-job-dropped", "serial queue: job %d was submitted (by running job %s) but never executed; the queue was destroyed normally" % (j, sc["jobs"][j][4]))
         if c != 1:
             return ("job-not-exactly-once", "job %d was executed %d times (submitted once, queue destroyed)" % (j, c))
         if tr["started"].get(j, 0) != 1 or tr["finished"].get(j, 0) != 1:
             return ("job-callbacks-unpaired", "job %d: queueJobStarted x%d, queueJobFinished x%d" % (j, tr["started"].get(j, 0), tr["finished"].get(j, 0)))
-    running, added, taken, cancelled, maxrun = {}, [], [], False, 0
-    for lab in tr["labels"]:
-        f = lab.split(":")
-        if f[0] == "a":
-            if int(f[1]) in added:
-                return ("job-added-twice", "job %s reported as added twice" % f[1])
-            added.append(int(f[1]))
-        elif f[0] == "t":
-            l, j = int(f[1]), int(f[2])
-            if l >= lanes or l < 0:
-                return ("lane-out-of-range", "job %d ran on lane %d of a %d-lane queue" % (j, l, lanes))
-            if l in running:
-                return ("lane-bound", "lane %d started job %d while job %d was still running on it" % (l, j, running[l]))
-            if j in taken:
-                return ("job-not-exactly-once", "job %d was started twice" % j)
-            if j not in added:
-                return ("job-before-add", "job %d started before it was added" % j)
-            taken.append(j)
-            running[l] = j
-            maxrun = max(maxrun, len(running))
-            if len(running) > lanes:
-                return ("lane-bound", "%d jobs in flight on a %d-lane queue" % (len(running), lanes))
-        elif f[0] == "f":
+    P, Q, B, S, E = {}, {}, {}, {}, {}
+    fin_by_lane, lane_of_tid, tid_of_lane = {}, {}, {}
+    open_body, cancelled_at, per_lane = {}, None, {}
+    for pos, ev in enumerate(tr["events"]):
+        f = ev.split(":")
+        k = f[0]
+        if k in ("P", "Q", "B", "S", "E"):
+            j = int(f[2]) if k in ("B", "S", "E") else int(f[1])
+            tbl = dict(P=P, Q=Q, B=B, S=S, E=E)[k]
+            if j in tbl:
+                return ("job-not-exactly-once" if k in ("B", "S", "E") else "job-added-twice", "event %s reported twice for job %d" % (k, j))
+            tbl[j] = pos
+        if k in ("B", "S", "E", "f"):
             l = int(f[1])
-            if l not in running:
-                return ("finish-without-start", "lane %d reported a finished job without a running one" % l)
-            del running[l]
-        elif f[0] == "s":
-            if cancelled:
+            if k == "B" and l < 0:
+                return ("job-callbacks-unpaired", "queueJobStarted(job %s) was not followed by the job's body on that thread" % f[2])
+            if l < 0 or l >= lanes:
+                return ("lane-out-of-range", "lane %d reported by a %d-lane queue (%s)" % (l, lanes, ev))
+            per_lane.setdefault(l, []).append((k, int(f[2]) if k != "f" else None, pos))
+        if k == "S":
+            l, j, tid = int(f[1]), int(f[2]), int(f[3])
+            if lane_of_tid.setdefault(tid, l) != l or tid_of_lane.setdefault(l, tid) != tid:
+                return ("lane-bound", "lane %d / thread %d: a lane is one thread (lane %s was thread %s, thread %s was lane %s)" % (l, tid, l, tid_of_lane.get(l), tid, lane_of_tid.get(tid)))
+            if l in open_body:
+                return ("lane-bound", "lane %d started job %d while job %d was still running on it" % (l, j, open_body[l]))
+            if j not in P:
+                return ("job-before-add", "job %d started before addJob was called for it" % j)
+            open_body[l] = j
+            if len(open_body) > lanes:
+                return ("lane-bound", "%d jobs in flight on a %d-lane queue" % (len(open_body), lanes))
+        elif k == "E":
+            l = int(f[1])
+            if open_body.get(l) != int(f[2]):
+                return ("finish-without-start", "lane %d ended job %s which it was not running" % (l, f[2]))
+            del open_body[l]
+        elif k == "f":
+            fin_by_lane.setdefault(int(f[1]), []).append(pos)
+        elif k == "s":
+            if cancelled_at is not None:
                 return ("spawn-after-cancel", "a process was spawned on lane %s after cancelAllJobs had returned" % f[1])
-        elif f[0] == "c":
-            cancelled = True
-    if running:
-        return ("job-never-finished", "jobs %s were still running when the queue was destroyed" % sorted(running.values()))
-    if sorted(taken) != list(range(n)):
-        return ("job-not-exactly-once", "jobs taken %s, jobs submitted 0..%d" % (sorted(taken), n - 1))
-    # scheduler order (property text: high priority first / FIFO / greatest ordinal name), from the trace alone
-    pend_hi, pend_n = [], []
-    for lab in tr["labels"]:
-        f = lab.split(":")
-        if f[0] == "a":
-            (pend_hi if (f[2] == "h" and sc["alg"] != "serial") else pend_n).append(int(f[1]))
-        elif f[0] == "t":
-            j = int(f[2])
-            if pend_hi:
-                if j != pend_hi[0]:
-                    return ("order-high-first", "job %d was taken while high-priority job %d was waiting at the head" % (j, pend_hi[0]))
-                pend_hi.pop(0)
-            elif sc["alg"] in ("fifo", "serial"):
-                if j != pend_n[0]:
-                    return ("order-fifo", "FIFO queue gave job %d before the older job %d" % (j, pend_n[0]))
-                pend_n.pop(0)
-            else:
-                oj = sc["jobs"][j][2]
-                big = [k for k in pend_n if sc["jobs"][k][2] > oj]
-                if big:
-                    return ("order-name-priority", "name-priority queue gave job %d (%r) while job %d (%r) was waiting" % (j, oj, big[0], sc["jobs"][big[0]][2]))
-                pend_n.remove(j)
+        elif k == "c":
+            cancelled_at = pos
+    if open_body:
+        return ("job-never-finished", "jobs %s were still running when the queue was destroyed" % sorted(open_body.values()))
+    for j in range(n):
+        for name, tbl in (("addJob entered", P), ("addJob returned", Q), ("queueJobStarted", B), ("body begin", S), ("body end", E)):
+            if j not in tbl:
+                return ("job-not-exactly-once", "job %d: no '%s' event although the queue was destroyed" % (j, name))
+        if not (P[j] < B[j] < S[j] < E[j]):
+            return ("job-before-add", "job %d: events out of order (addJob entered %d, queueJobStarted %d, body %d..%d)" % (j, P[j], B[j], S[j], E[j]))
+    for l, evs in per_lane.items():
+        want = ["B", "S", "E", "f"]
+        for i, (k, j, pos) in enumerate(evs):
+            if k != want[i % 4] or (i % 4 and k != "f" and j != evs[i - i % 4][1]):
+                return ("job-callbacks-unpaired", "lane %d: callbacks not in the order started/body/finished (%s)" % (l, [x[0] + (str(x[1]) if x[1] is not None else "") for x in evs[max(0, i - 4):i + 2]]))
+        if len(evs) % 4:
+            return ("job-callbacks-unpaired", "lane %d: last job has no queueJobFinished" % l)
+    # scheduler order: only what is DEFINITE given the intervals.  The take of job j lies between the previous
+    # queueJobFinished on its lane (avail) and queueJobStarted(j) (B); its enqueue between P and Q.
+    lane_of = {}
+    for l, evs in per_lane.items():
+        for (k, j, pos) in evs:
+            if k == "B": lane_of[j] = l
+    avail = {}
+    for j in range(n):
+        prev = [p for p in fin_by_lane.get(lane_of[j], []) if p < B[j]]
+        avail[j] = prev[-1] if prev else -1
+    high = {j: (sc["jobs"][j][1] and not serial) for j in range(n)}
+    name = {j: sc["jobs"][j][2] for j in range(n)}
+    for b in range(n):
+        for a in range(n):
+            if a == b or not (B[b] < avail[a]):          # b was certainly dequeued before a
+                continue
+            if high[a] and not high[b] and Q[a] < avail[b]:
+                return ("order-high-first", "normal job %d was taken although high-priority job %d had been queued before that lane was free, and %d was only taken later" % (b, a, a))
+            if high[a] == high[b] and Q[a] < P[b] and (high[a] or sc["alg"] in ("fifo", "serial")):
+                return ("order-fifo", "%s: job %d was taken before job %d although addJob(%d) had returned before addJob(%d) was entered" % ("high-priority list" if high[a] else "FIFO queue", b, a, a, b))
+            if not high[a] and not high[b] and sc["alg"] == "prio" and name[a] > name[b] and Q[a] < avail[b]:
+                return ("order-name-priority", "name-priority queue gave job %d (%r) although job %d (%r) had been queued before that lane was free, and %d was only taken later" % (b, name[b], a, name[a], a))
     for j, (cb, st) in tr["procs"].items():
         if cb != 1:
             return ("completion-not-once", "the completion callback of job %d's process fired %d times" % (j, cb))
         if st not in ("Succeeded", "Cancelled") or (st == "Cancelled" and sc["cancel"] < 0):
             return ("proc-status", "/bin/true run by job %d ended as %s (cancellation %s)" % (j, st, "requested" if sc["cancel"] >= 0 else "never requested"))
     if tr["err"] != "-":
-        if "no closure copy" in tr["err"]:
-            return None          # observation problem, handled as correspondence by the caller
         return ("process-error", "processHadError during a plain /bin/true launch: %s" % tr["err"][:200])
     return None
 
 def nontrivial_key(sc, tr):
     conc, running, child = 0, 0, any(p >= 0 for (_, _, _, _, p, _, _) in sc["jobs"])
-    for lab in tr["labels"]:
-        if lab.startswith("t:"): running += 1; conc = max(conc, running)
-        elif lab.startswith("f:"): running -= 1
-    if conc >= 2 or child or "c" in tr["labels"]:
-        return ("q", sc["lanes"], sc["alg"], ",".join(tr["labels"]))
+    for ev in tr["events"]:
+        if ev.startswith("S:"): running += 1; conc = max(conc, running)
+        elif ev.startswith("E:"): running -= 1
+    if conc >= 2 or child or "c" in tr["events"]:
+        return ("q", sc["lanes"], sc["alg"], ",".join(e.rsplit(":", 1)[0] if e.startswith("S:") else e for e in tr["events"]))
     return None
 
 def run_queue_scenarios(chk, drv, model, scs, tag):
@@ -204,46 +231,43 @@ def run_queue_scenarios(chk, drv, model, scs, tag):
         if tr is None:
             chk.violation("queue-driver-answer", "unparsable driver answer", dict(scenario=lines[k], answer=a[:500], kind="queue"), found_input=False, broken="harness/cpp/queue_driver.cpp")
             continue
+        evs = model_events(tr)
         if sc["alg"] == "serial":
-            mreq.append("saccepts v1 %s" % (",".join(tr["labels"]) if tr["labels"] else "."))
+            mreq.append("saccepts_iv v1 %s" % (",".join(evs) if evs else "."))
         else:
-            mreq.append("accepts %d %s %s" % (sc["lanes"], sc["alg"], ",".join(tr["labels"]) if tr["labels"] else "."))
+            mreq.append("accepts_iv %d %s %s" % (sc["lanes"], sc["alg"], ",".join(evs) if evs else "."))
         idx.append(k)
-    rc2, mo, e2 = vlib.run_lines(model, mreq, timeout=600)
+    rc2, mo, e2 = vlib.run_lines(model, mreq, timeout=900)
     assert rc2 == 0 and len(mo) == len(mreq), (rc2, e2[-500:])
     ok = 0
     for k, m in zip(idx, mo):
         sc, tr = scs[k], traces[k]
         chk.count(nontrivial_key(sc, tr))
+        chk.cov["closure_copies_seen"] = chk.cov.get("closure_copies_seen", 0) + tr["copies"]
         bad = queue_oracle(sc, tr)
-        rp = dict(kind="queue", scenario=lines[k], trace=tr["labels"], counts=tr["counts"], procs=tr["procs"], driver_err=tr["err"], model=m)
+        rp = dict(kind="queue", scenario=lines[k], events=tr["events"], counts=tr["counts"], procs=tr["procs"], driver_err=tr["err"], model=m[:4000])
+        alljobs = list(range(len(sc["jobs"])))
+        mp = m.split(" ")
+        ints = lambda x: sorted(int(v) for v in x.split(",") if v != ".")
         if sc["alg"] == "serial":
-            # the serial model predicts exactly which jobs are lost; the oracle decides whether losing any is a violation
-            dropped = sorted(j for j in range(len(sc["jobs"])) if tr["counts"].get(j, 0) == 0)
-            mp = m.split(" ")
-            model_ok = (m.startswith("OK 1 ") and len(mp) == 4 and tr["err"] == "-" and
-                        sorted(int(x) for x in mp[3].split(",") if x != ".") == dropped and
-                        sorted(int(x) for x in mp[2].split(",") if x != ".") == sorted(j for j in range(len(sc["jobs"])) if tr["counts"].get(j, 0) == 1))
-            if bad:
-                rp["model_agrees_on_lost_jobs"] = model_ok
-                chk.violation(bad[0], bad[1], rp, found_input=True, broken="c16 oracle on the real serial queue")
-            if model_ok:
-                ok += 1
-            else:
-                chk.violation("serial-correspondence", "the trace of the real serial queue is not a run of the serial model in Queue/Lanes.v (%s)" % (m if tr["err"] == "-" else tr["err"]),
-                              rp, found_input=False, broken="correspondence: Queue.Lanes.saccepts")
-            continue
+            # the serial model says exactly which jobs are lost; the oracle decides whether losing any is a violation
+            dropped = [j for j in alljobs if tr["counts"].get(j, 0) == 0]
+            model_ok = (m.startswith("OK 1 ") and len(mp) == 5 and ints(mp[3]) == dropped and ints(mp[2]) == [j for j in alljobs if tr["counts"].get(j, 0) == 1])
+            what = "the events of the real serial queue admit no run of the serial model in Queue/Lanes.v (%s)"
+            key, corr = "serial-correspondence", "correspondence: Queue.Lanes.saccepts"
+        else:
+            model_ok = m.startswith("OK 1 ") and len(mp) == 4 and ints(mp[2]) == alljobs
+            what = "the events of the real queue admit no run of the model Queue/Lanes.v, wherever the enqueue/dequeue instants are placed inside their observed intervals (%s), although every oracle holds"
+            key, corr = "lanes-correspondence", "correspondence: Queue.Lanes.accepts"
         if bad:
-            chk.violation(bad[0], bad[1], rp, found_input=True, broken="c16 oracle on the real queue")
-            continue
-        want_fin = sorted(range(len(sc["jobs"])))
-        if m.startswith("OK 1 ") and sorted(int(x) for x in m.split(" ")[2].split(",")) == want_fin and tr["err"] == "-":
+            rp["model_accepts"] = model_ok
+            chk.violation(bad[0], bad[1], rp, found_input=True, broken="c16 oracle on the real %squeue" % ("serial " if sc["alg"] == "serial" else ""))
+        elif model_ok:
             ok += 1
         else:
-            chk.violation("lanes-correspondence", "the trace of the real queue is not a run of the model Queue/Lanes.v (%s) although every oracle holds on it" % (m if tr["err"] == "-" else tr["err"]),
-                          rp, found_input=False, broken="correspondence: Queue.Lanes.accepts")
+            chk.violation(key, what % m[:60], rp, found_input=False, broken=corr)
     if scs and traces[0] is not None:
-        chk.sample(dict(kind="queue-" + tag, scenario=lines[0], trace=",".join(traces[0]["labels"]), model=mo[0] if mo else None))
+        chk.sample(dict(kind="queue-" + tag, scenario=lines[0], events=",".join(traces[0]["events"]), model=(mo[0] if mo else "")[:1500]))
     return ok
 
 CORPUS = [
@@ -727,8 +751,9 @@ def run(chk):
 
     chk.assumptions = [
         "Linux/glibc wait-status layout (WIFEXITED/WIFSIGNALED/WTERMSIG as in <bits/waitstatus.h>)",
-        "the order of `add`/`start` labels is read off copies of the job closure made inside addJob/getNextJob (std::function heap-allocates a closure "
-        "with a non-trivial copy constructor and copies it when a QueueJob is copied): if that stopped being true the driver reports it instead of guessing",
+        "the instants at which the queue enqueues / dequeues a job are not observable through its API: the acceptance check treats Add and Take as internal steps "
+        "placed anywhere inside [addJob entered, addJob returned] resp. [previous queueJobFinished of the lane, queueJobStarted] (search in ocaml/vmodel_queue.ml, "
+        "judged by the extracted step function only); the order oracles only report orders that are definite given those intervals",
         "children are /bin/sh (dash), /bin/bash, coreutils of this image",
         "jobs terminate; addJob from outside is not called once the destructor has started (client contract)"]
     return chk.finish(level="proof",
@@ -743,7 +768,7 @@ def run(chk):
                                          "Real thread interleavings, pipe ordering, signal delivery and reaping are SAMPLED by this run, not proved.",
                                  exhaustive_tables="status_of_wait proved over all 65536 16-bit wait statuses by computation and characterised for every N; all 256 exit codes and all terminating/ignored signals 1..31 probed on real children"),
                       trusted=["hand-written models coq/Queue/{Lanes,ProcStatus,Env}.v tied to the code by acceptance / differential runs only",
-                               "harness/cpp/queue_driver.cpp (observation of the take/add order through closure copies under the queue's mutex)",
+                               "harness/cpp/queue_driver.cpp; the interval search of ocaml/vmodel_queue.ml (iv_search)",
                                "extraction (ExtrOcamlBasic) + ocaml/vmodel_queue.ml"])
 
 def replay(chk, rp):
